@@ -299,7 +299,15 @@ func (c *converter) syncPartial() {
 // here and removed before parse the added ingress which will readd such hosts
 // and backs
 func (c *converter) trackAddedIngress() {
-	for _, ing := range append(c.changed.IngressesAdd, c.changed.IngressesUpd...) {
+	ingList := append(c.changed.IngressesAdd, c.changed.IngressesUpd...)
+	// ingress already tracked that is going to be parsed again might also start to
+	// reference hosts or backs that already exist, eg a path declared twice changing its owner
+	for _, name := range c.tracker.QueryLinks(c.changed.Links, false)[convtypes.ResourceIngress] {
+		if ing, err := c.cache.GetIngress(name); err == nil && ing != nil {
+			ingList = append(ingList, ing)
+		}
+	}
+	for _, ing := range ingList {
 		name := ing.Namespace + "/" + ing.Name
 		if ing.Spec.DefaultBackend != nil {
 			backend := c.findBackend(ing.Namespace, ing.Spec.DefaultBackend)
